@@ -162,6 +162,13 @@ def shape_cases(rng):
          [{'kind': 'a', 'x': 'no'}, {'kind': 'zzz'}, {'x': 1}, {'kind': ['a']}, 5]),
         (('enum', terms.fresh_name('En'), [('A', 1), ('B', 'b')]), [3, 'c', 2.5, None]),
     ]
+    # a chain of single-failing-child product nodes whose MIDDLE level also has a missing / an unexpected field
+    leaf = {'name': terms.fresh_name('Leaf'), 'fields': [{'name': 'depth', 'ty': ('scalar', 'int')}], 'opts': {}, 'hook': None}
+    middle = {'name': terms.fresh_name('Middle'), 'fields': [{'name': 'leaf', 'ty': ('class', leaf)}, {'name': 'width', 'ty': ('scalar', 'int')}], 'opts': {}, 'hook': None}
+    top = {'name': terms.fresh_name('Top'), 'fields': [{'name': 'middle', 'ty': ('class', middle)}], 'opts': {}, 'hook': None}
+    fam += [(('class', top), [{'middle': {'leaf': {'depth': 'deep'}}}, {'middle': {'leaf': {'depth': 'deep'}, 'width': 1, 'colour': 'red'}},
+                              {'middle': {'leaf': {'depth': 'deep', 'zz': 1}, 'width': 1}}, {'middle': {'leaf': {}, 'colour': 1}}]),
+            (('seq', 'list', ('dict', ('scalar', 'str'), ('class', middle))), [[{'k': {'leaf': {'depth': 'deep'}}}], [{'k': {'leaf': {'depth': 'x'}, 'width': 2, 'extra': 0}}]])]
     # sums nested three and four deep (a union-like member inside a condition inside a union ...): rendering flattens them for display only
     mixed = ('enum', terms.fresh_name('Mx'), [('A', 1), ('B', 'b')])
     lvl2 = ('cond', ('union', [mixed, ('none',)]), ('lenrange', 0, 9))
